@@ -264,6 +264,8 @@ class World:
 
     def call(self, fn, expect: str = "ok", what: str = ""):
         """Run a library call; classify the outcome.  expect: ok | refuse | either."""
+        if expect == "ok" and getattr(self, "call_expect_either", False):
+            expect = "either"    # read-only machine: any call may be refused
         try:
             result = fn()
         except Violation:
